@@ -3547,7 +3547,13 @@ class PyCdlib:
         if self.joliet_vd is None:
             raise pycdlibexception.PyCdlibInternalError('Tried to remove joliet dir from non-Joliet ISO')
 
+        if joliet_path == b'/':
+            raise pycdlibexception.PyCdlibInvalidInput('Cannot remove base directory')
+
         joliet_child = self._find_joliet_record(joliet_path)
+
+        if not joliet_child.is_dir():
+            raise pycdlibexception.PyCdlibInvalidInput('Cannot remove a file with rm_directory (try rm_file instead)')
 
         if len(joliet_child.children) > 2:
             raise pycdlibexception.PyCdlibInvalidInput('Directory must be empty to use rm_directory')
